@@ -68,8 +68,15 @@ class Ref(object):
         key = (repr(self.src), self.cls, repr(route))
         hit = _BASE.get(key)
         if hit is None:
-            m = self._bare(route)
-            import myokit
+            from .. import world as _w
+            cur = _w.CURRENT
+            if cur is not None:
+                cur.muted += 1
+            try:
+                m = self._bare(route)
+            finally:
+                if cur is not None:
+                    cur.muted -= 1
             sim_model = m._simulator._model
             vars_ok = set()
             for v in sim_model.variables(deep=True):
